@@ -1,5 +1,4 @@
 // stubs.cc — placeholders for simulations not linked into this binary yet.
 #include "sim.h"
 Sim *make_oneshot_sim() { return nullptr; }
-Sim *make_dispatch_sim() { return nullptr; }
 Sim *make_shared_sim() { return nullptr; }
